@@ -232,6 +232,29 @@ fn check_family(rep: &mut Report, k: usize, rc: bool, fam: &Fam, dir: &str) -> V
         }
         Ok(())
     })());
+    // distance on tables WITH ambiguity codes: CLI on the saved file vs the same function in-process on the
+    // in-memory table (both flag settings), so that the flag plumbing of both width arms is covered
+    if t.has_ambig() && n >= 2 {
+        for aa in [false, true] {
+            let mut a = vec!["distance", "x.skf"];
+            if aa {
+                a.push("--allow-ambiguous");
+            }
+            let o = cli::run(&a, dir, None);
+            let inproc = in_process_distance(&t, aa);
+            step(rep, if aa { "distance --allow-ambiguous (ambiguous table)" } else { "distance (ambiguous table)" }, (|| {
+                if o.code != 0 {
+                    return Err(format!("exit {} {}", o.code, tail(&o)));
+                }
+                let got: Vec<String> = String::from_utf8_lossy(&o.stdout).lines().skip(1).map(|s| s.to_string()).collect();
+                let want = inproc?;
+                if got != want {
+                    return Err(format!("CLI on the saved file prints {:?}, the in-memory table gives {:?}", got.first(), want.first()));
+                }
+                Ok(())
+            })());
+        }
+    }
     // distance with its flags
     if !t.has_ambig() && n >= 2 {
         let f = format!("{}", freq_for_threshold(n - 1, n));
@@ -376,6 +399,22 @@ fn check_family(rep: &mut Report, k: usize, rc: bool, fam: &Fam, dir: &str) -> V
 }
 
 fn rep_corner_empty() {}
+
+/// `generic_modes::distance` on an in-memory array holding exactly this table (threads = 1)
+fn in_process_distance(t: &Table, allow_ambiguous: bool) -> Result<Vec<String>, String> {
+    std::env::set_var("RAYON_NUM_THREADS", "1");
+    let out = scratch::path("c09_inproc.dist");
+    let r = if t.k <= 31 {
+        let mut a: ska::merge_ska_array::MergeSkaArray<u64> = real::forge_array(t);
+        real::catch(|| ska::generic_modes::distance(&mut a, &Some(out.clone()), 0.0, !allow_ambiguous, 1))
+    } else {
+        let mut a: ska::merge_ska_array::MergeSkaArray<u128> = real::forge_array(t);
+        real::catch(|| ska::generic_modes::distance(&mut a, &Some(out.clone()), 0.0, !allow_ambiguous, 1))
+    };
+    r?;
+    let text = std::fs::read_to_string(&out).map_err(|e| format!("{e}"))?;
+    Ok(text.lines().skip(1).map(|s| s.to_string()).collect())
+}
 
 pub fn replay(case: &Value) -> Result<Option<String>, String> {
     let k = case["k"].as_u64().ok_or("k")? as usize;
